@@ -48,7 +48,12 @@ type Config struct {
 
 // Case is one request against one configuration.
 type Case struct {
-	Cfg    Config `json:"cfg"`
+	Cfg Config `json:"cfg"`
+	// construction sequences in one process: Before are constructed before Cfg, Then after Cfg and
+	// before the request is (re)sent to the handler built from Cfg. Both empty = plain case.
+	Before []Config `json:"before,omitempty"`
+	Then   []Config `json:"then,omitempty"`
+
 	Method string `json:"method"`
 	Target string `json:"target"` // request target exactly as on the request line
 	Body   string `json:"body,omitempty"`
